@@ -611,6 +611,13 @@ def key_rdkit(repo, tier="quick"):
     return obs
 
 
+def _subterms(t):
+    if isinstance(t, tuple):
+        yield t
+        for x in t:
+            yield from _subterms(x)
+
+
 def norm_bead(repo, tier="quick"):
     """C18: bead position = sum(position * weight over the bead's own atoms) / sum(those weights)."""
     fi = repo.function("coordinates:forward_map_molecule")
@@ -619,6 +626,7 @@ def norm_bead(repo, tier="quick"):
     obs = []
     oid = "NORM.bead"
     acc = None
+    scaled = None
     for n in cfg.nodes:
         al = aug_like(n.ast) if n.kind == "stmt" and isinstance(n.ast, (ast.AugAssign, ast.Assign)) else None
         if al and al[1] is ast.Add:
@@ -636,6 +644,13 @@ def norm_bead(repo, tier="quick"):
                         ek = elem_of(na[1])
                         if ek and ek[0] == "key" and ek[1] == ew[1]:
                             acc = (n, al[0], strip_wrappers(ew[1]))
+                    # the weight of the pair, transformed before it enters the sum (weight / k, weight ** 2, ...)
+                    if na and na[0] == aa and na[2] == ("const", "position") and not ew and w[0] in ("binop", "call", "unop"):
+                        ek = elem_of(na[1])
+                        for t in _subterms(w):
+                            et = elem_of(t) if isinstance(t, tuple) and t and t[0] == "sub" else None
+                            if et and et[0] == "value" and ek and ek[0] == "key" and ek[1] == et[1]:
+                                scaled = (n, al[0], strip_wrappers(et[1]), w)
                     # parallel sequences of one dict: for i, atom in enumerate(list(W)): ... list(W.values())[i]
                     if na and na[0] == aa and na[2] == ("const", "position") and acc is None and w[0] == "sub":
                         mvw = method_call(strip_wrappers(w[1]), "values")
@@ -651,6 +666,27 @@ def norm_bead(repo, tier="quick"):
                                 dict(ci[4]).get("data", ci[3][0] if ci[3] else None) == ("const", "weight"):
                             acc = (n, al[0], ("call", None, ("ext", "networkx.get_node_attributes"), (ci[2][1], ("const", "weight")), ()))
                             nodesdata_elem = w
+    if acc is None and scaled is not None:
+        # numerator with transformed weights: the divisor has to be the sum of the same transformed weights
+        n_s, var_s, W_s, w_s = scaled
+        for m in cfg.nodes:
+            st = m.ast
+            if m.kind != "stmt":
+                continue
+            val = None
+            if isinstance(st, ast.Assign) and isinstance(st.value, ast.BinOp) and isinstance(st.value.op, ast.Div) and isinstance(st.value.left, ast.Name) and st.value.left.id == var_s:
+                val = st.value.right
+            elif isinstance(st, ast.AugAssign) and isinstance(st.op, ast.Div) and isinstance(st.target, ast.Name) and st.target.id == var_s:
+                val = st.value
+            if val is None:
+                continue
+            d_s = fl.canon(val, m.id)
+            s_s = is_call(d_s, "sum", "numpy.sum", "math.fsum")
+            mv_s = method_call(strip_wrappers(s_s[0][0]), "values") if s_s and s_s[0] else None
+            if mv_s and strip_wrappers(mv_s[0]) == W_s:
+                return [ob_fail(oid, fi, n_s.ast, construct="sum of position * f(weight), divided by sum(weights)", instance="divisor",
+                                reason="the weights that multiply the positions are not the weights that are summed in the divisor: the bead is not the "
+                                       "weight-normalised average of its atoms and does not follow a translation of the atoms")]
     if acc is None:
         # the whole bead in one array expression: a plain mean divides by the number of atoms, not by the sum of the weights
         for q in cfg.nodes:
